@@ -178,3 +178,65 @@ Definition unhex_lit (l : bytes) : option bytes :=
   | 48 :: 120 :: r => unhex_body r
   | _ => None
   end.
+
+(* ================================================================ *)
+(* Round 3: schema delta (add / drop / rename / modify column)       *)
+(* go/libraries/doltcore/sqle/sqlfmt/schema_fmt.go  GenerateSqlPatchSchemaStatements /
+   generateNonCreateNonDropTableSqlSchemaDiff: columns are matched by tag; a column only in the
+   old schema is dropped, a column only in the new one is added, and for a column in both the
+   name and the type are checked INDEPENDENTLY: RENAME COLUMN when the name differs, and
+   MODIFY COLUMN when the type differs (a column can need both). *)
+Record col := { c_id : N; c_name : N; c_ty : N }.
+Definition tschema := list col.
+
+Inductive ddl :=
+| DAdd (c : col)
+| DDrop (id : N)
+| DRename (id nm : N)
+| DModify (id ty : N).
+
+Fixpoint find_col (id : N) (s : tschema) : option col :=
+  match s with
+  | [] => None
+  | c :: s' => if c_id c =? id then Some c else find_col id s'
+  end.
+Definition has_id (id : N) (s : tschema) : bool := match find_col id s with Some _ => true | None => false end.
+
+Definition col_ddl (sa : tschema) (c : col) : list ddl :=
+  match find_col (c_id c) sa with
+  | None => [DAdd c]
+  | Some old =>
+    (if c_name old =? c_name c then [] else [DRename (c_id c) (c_name c)])
+    ++ (if c_ty old =? c_ty c then [] else [DModify (c_id c) (c_ty c)])
+  end.
+
+Definition schema_patch (sa sb : tschema) : list ddl :=
+  map (fun c => DDrop (c_id c)) (filter (fun c => negb (has_id (c_id c) sb)) sa)
+  ++ flat_map (col_ddl sa) sb.
+
+Definition set_name (nm : N) (c : col) : col := {| c_id := c_id c; c_name := nm; c_ty := c_ty c |}.
+Definition set_ty (ty : N) (c : col) : col := {| c_id := c_id c; c_name := c_name c; c_ty := ty |}.
+
+Definition apply_ddl (s : tschema) (d : ddl) : tschema :=
+  match d with
+  | DAdd c => s ++ [c]
+  | DDrop id => filter (fun c => negb (c_id c =? id)) s
+  | DRename id nm => map (fun c => if c_id c =? id then set_name nm c else c) s
+  | DModify id ty => map (fun c => if c_id c =? id then set_ty ty c else c) s
+  end.
+Definition apply_ddls (s : tschema) (l : list ddl) : tschema := fold_left apply_ddl l s.
+
+(* numbers of ADD / DROP / RENAME / MODIFY statements *)
+Definition ddl_counts (l : list ddl) : N * N * N * N :=
+  fold_left (fun acc d => let '(a, dr, r, m) := acc in
+                          match d with DAdd _ => (a + 1, dr, r, m) | DDrop _ => (a, dr + 1, r, m)
+                                     | DRename _ _ => (a, dr, r + 1, m) | DModify _ _ => (a, dr, r, m + 1) end)
+            l (0, 0, 0, 0).
+
+Definition col_eqb (x y : col) : bool := (c_id x =? c_id y) && (c_name x =? c_name y) && (c_ty x =? c_ty y).
+Fixpoint tschema_eqb (a b : tschema) : bool :=
+  match a, b with
+  | [], [] => true
+  | x :: a', y :: b' => col_eqb x y && tschema_eqb a' b'
+  | _, _ => false
+  end.
